@@ -1520,6 +1520,7 @@ _BUILTINS = {
     'str': lambda x: UNKNOWN if (x is UNKNOWN or x is ERR or isinstance(x, (Opaque, Obj))) else str(x),
     'int': lambda x: UNKNOWN if x is UNKNOWN else int(x),
     'float': lambda x: UNKNOWN if x is UNKNOWN else float(x),
+    'id': lambda x: id(x),      # identity of a model object is its Python identity
     'repr': lambda x: UNKNOWN if (x is UNKNOWN or x is ERR or isinstance(x, (Opaque, Obj))) else repr(x),
 }
 
